@@ -35,3 +35,4 @@ def rules(ctx):
     S.key_compare_rules(ctx)
     S.buddy_split_rules(ctx)
     S.replaced_range_rules(ctx)
+    S.survey_residue_rules(ctx)
